@@ -1,5 +1,26 @@
-(* C09 — theorems are added as they close; model Solr/Edismax.v, spec Solr/Edismax_Spec.v *)
-From Coq Require Import QArith.
-From SA Require Import Base.Prelude Solr.Edismax Solr.Edismax_Spec.
+(* C09 — edismax query-field score follows the DisMax + minimum-should-match model.
+   Statement-only file.  Model Solr/Edismax.v (the code's running max / sum, tie, mm filter, term- vs
+   field-centric choice); spec Solr/Edismax_Spec.v (dismax per document).  Equality is pointwise Qeq. *)
+From Coq Require Import ZArith QArith List.
+From SA Require Import Base.Prelude Index.Index View.View Solr.MM Solr.MM_Spec Solr.MM_Proofs
+  Solr.Edismax Solr.Edismax_Spec Solr.Edismax_Proofs.
+Import ListNotations.
+
+(* wf_query: every field has n rows and score vectors of length n, single-term scores are non-negative,
+   1..NMAX query terms per field, non-negative boosts and tie, mm spec in the float-exact range of C11.
+   qf_calls_ok: the per-term score calls succeed (needed on the term-centric path only because the code
+   evaluates term-major and the spec field-major, so the FIRST failing call could differ).
+   select_ok: selecting the matching rows succeeds (always true for avoid_copies arrays). *)
+Theorem C09_query_field_score : forall idf n q, wf_query idf n q ->
+  (is_term_centric (eq_fields q) = true -> qf_calls_ok idf q) -> select_ok n q ->
+  eq_pf q = [] -> eq_pf2 q = [] -> eq_pf3 q = [] ->
+  api_veq (edismax idf n q) (edismax_spec idf n q).
+Proof. exact C09_no_phrases. Qed.
+Print Assumptions C09_query_field_score.
+
+(* q_op = AND is mm = 100%: all clauses required *)
+Theorem C09_and_is_100pct : forall n, (0 <= n <= NMAX)%Z -> mm_f64 n (Simple (SPct 100)) = n.
+Proof. exact and_is_100pct. Qed.
+
 Example C09_dismax_example : dismax (1 # 2) [3; 1; 2] == 3 + (1 # 2) * 3.
 Proof. vm_compute. reflexivity. Qed.
